@@ -206,8 +206,12 @@ def edit_model(r, tier, cases, lines):
         seg, oseg = bytes.fromhex(m["seg"]), bytes.fromhex(m["oseg"])
         recs = split_records(seg, [int(x.split(":")[0]) for x in m["ends"].split(",")])
         orecs = split_records(oseg, [int(x.split(":")[0]) for x in m["oends"].split(",")])
-        for item in m["edits"].split(";"):
+        for n, item in enumerate(m["edits"].split(";")):
             name, res = item.split("=", 1)
+            # quick: every commit-marker / whole-transaction edit, and a quarter of the frame edits
+            key = name.split(":")[0]
+            if tier == "quick" and not (key in ("delc", "dupc", "appc", "xchgc", "swapcc", "swapcf", "swapfc", "apptx", "pretx", "insc", "replc") or n % 4 == 0):
+                continue
             variants.append(apply_edit(name, recs, orecs))
             meta.append((c, name, res.split("|")))
     tbl = W.build_table("c11e", variants)
@@ -218,7 +222,7 @@ def edit_model(r, tier, cases, lines):
     # one shared table: define it once
     pre = W.PRE + "Definition tbl : list (N * list (bytes * N)) := %s.\n" % tbl.term()
     terms = [f"(summarize (recover_segment (tbl_hash tbl) 1 {W.hexbytes(v)}), summarize (recover_store (tbl_hash tbl) {W.hexbytes(v)}))" for v in variants]
-    vals = vf.coq_eval("c11e-e", pre, terms, shards=min(vf.NCPU, max(1, len(terms) // 4)))
+    vals = vf.coq_eval("c11e-e", pre, terms, shards=min(vf.NCPU, max(1, len(terms) // 4)), timeout=1700)
     checked = differing = 0
     msgs = []
     for (c, name, res), v in zip(meta, vals):
